@@ -213,9 +213,30 @@ def run(ctx: Ctx) -> None:
     lists = {norm(c.func.value) for c in own_nodes(sva.node) if isinstance(c, ast.Call) and isinstance(c.func, ast.Attribute) and c.func.attr == "append" and c.args and c.args[0] in adds}
     ctx.count("C17.R4", len(adds), 3, "voice-assistant handler registrations")
     ctx.ob("C17.R4", sva, "every remover obtained while subscribing is retained", all(any(a is x for x in appended) for a in adds) and len(lists) == 1, f"{len(adds)} registrations, {sum(1 for a in adds if any(a is x for x in appended))} retained in {sorted(lists)}")
-    unsub = ctx.repo.func("client", "APIClient.subscribe_voice_assistant.unsub")
+    # the unsubscribe function is located by role: what subscribe_voice_assistant returns - a nested function (closure
+    # over the removers and the pending-start slot) or a method with values bound by partial()
+    rets_u = [n for n in own_nodes(sva.node) if isinstance(n, ast.Return) and n.value is not None]
+    ctx.require(len(rets_u) == 1, "subscribe_voice_assistant: single return expected")
+    rvu = rets_u[0].value
+    slot_in_unsub = "start_task"
+    bound_map: dict[str, str] = {}
+    if isinstance(rvu, ast.Name):
+        unsub = next((f for f in ctx.repo.funcs_in("client") if f.qualname == f"APIClient.subscribe_voice_assistant.{rvu.id}"), None)
+    elif isinstance(rvu, ast.Call) and norm(rvu.func).split(".")[-1] == "partial" and rvu.args:
+        cvu = res._callable_value(sva, rvu.args[0])
+        unsub = cvu.funcs[0] if cvu is not None and len(cvu.funcs) == 1 else None
+        if unsub is not None:
+            ups = [p for p in unsub.param_names() if p != "self"]
+            bound_map = {p: norm(a) for p, a in zip(ups, rvu.args[1:])}
+            slot_in_unsub = next((p for p, a in bound_map.items() if a == "start_task"), "start_task")
+    else:
+        unsub = None
+    ctx.require(unsub is not None, f"subscribe_voice_assistant: returned unsubscribe function not identified ({norm(rvu)[:50]})")
+    by_value = [a for a in bound_map.values() if a == "start_task"]
+    ctx.ob("C17.R4", sva, "the unsubscribe function sees the start task that is pending when it is called (the slot is rebound by every start request)", not by_value, "the slot is handed over by value when subscribing - None at that moment: a handler still running at unsubscribe time is not cancelled and answers afterwards")
+    lists_u = {next((p for p, a in bound_map.items() if a == l), l) for l in lists}
     loops = [n for n in own_nodes(unsub.node) if isinstance(n, ast.For)]
-    oku = len(loops) == 1 and {norm(loops[0].iter)} == lists and any(isinstance(c, ast.Call) and isinstance(c.func, ast.Name) and c.func.id == norm(loops[0].target) for b in loops[0].body for c in ast.walk(b))
+    oku = len(loops) == 1 and {norm(loops[0].iter)} == lists_u and any(isinstance(c, ast.Call) and isinstance(c.func, ast.Name) and c.func.id == norm(loops[0].target) for b in loops[0].body for c in ast.walk(b))
     ctx.ob("C17.R4", unsub, "unsubscribe calls every retained remover", oku, "")
     # the slot that unsub cancels always holds the task started last: it is written only where a start task is
     # created (a completion callback that clears it would wipe a NEWER task started meanwhile)
@@ -229,12 +250,12 @@ def run(ctx: Ctx) -> None:
                         slot_writes.append((fnn, x))
     bad_sw = [(fnn.qualname, norm(x)[:50]) for fnn, x in slot_writes if not (fnn.qualname == "APIClient.subscribe_voice_assistant" and (x.value is None or (isinstance(x.value, ast.Constant) and x.value.value is None))) and not (isinstance(x.value, ast.Call) and norm(x.value.func).split(".")[-1] in ("create_eager_task", "create_task", "ensure_future"))]
     ctx.ob("C17.R4", sva, "the pending-start slot is only written where a start task is created", not bad_sw and len(slot_writes) >= 2, f"{bad_sw}: with two overlapping start requests the slot would no longer hold the running task and unsub() could not cancel it")
-    cancels = [c for c in own_nodes(unsub.node) if isinstance(c, ast.Call) and isinstance(c.func, ast.Attribute) and c.func.attr == "cancel" and norm(c.func.value) == "start_task"]
+    cancels = [c for c in own_nodes(unsub.node) if isinstance(c, ast.Call) and isinstance(c.func, ast.Attribute) and c.func.attr == "cancel" and norm(c.func.value) == slot_in_unsub]
     ctx.ob("C17.R4", unsub, "unsubscribe cancels a pending start task", len(cancels) == 1, "")
     us = [c for c in own_nodes(unsub.node) if isinstance(c, ast.Call) and norm(c.func).endswith("send_message") and c.args and isinstance(c.args[0], ast.Call)]
     ctx.ob("C17.R4", unsub, "unsubscribe tells the device (subscribe=False)", len(us) == 1 and {kw.arg: norm(kw.value) for kw in us[0].args[0].keywords} == {"subscribe": "False"} and norm(us[0].args[0].func) == "SubscribeVoiceAssistantRequest", "")
     rets = [n for n in own_nodes(sva.node) if isinstance(n, ast.Return)]
-    ctx.ob("C17.R4", sva, "the unsubscribe function is what is returned", [norm(r.value) for r in rets] == ["unsub"], f"{[norm(r.value) for r in rets]}")
+    ctx.ob("C17.R4", sva, "the unsubscribe function is what is returned", len(rets) == 1, f"{[norm(r.value)[:50] for r in rets]}")
     # the request handler is registered after the subscribe request is sent in the same turn (no await in between) - sync function
     ctx.ob("C17.R4", sva, "subscribing is synchronous (nothing can arrive between request and registration)", not sva.is_async and not any(isinstance(n, ast.Await) for n in own_nodes(sva.node)), "")
     # flags: API_AUDIO iff an audio handler is given
